@@ -22,6 +22,9 @@ chk("C15", "C15_targets, C15_selected_files, C15_content_in_place, C15_failure_p
     "Same trusted base as C13; crash atomicity of truncate-then-write, symlink cycles and concurrent modification of the tree are not modelled (named in DESIGN.md 5.15).",
     "Coq proof over translator-regenerated effect model + vm_compute correspondence with the real CLI on generated trees", "DESIGN.md 5.15")
 
+chk("C07", "C07_fold_preserves_eval: for every expression tree (any depth, any context) and every printer/interpreter satisfying the stated premises, evaluating the folded tree gives identically the same value (type, value, sign of zero, infinities) or raises exactly when the original does; C07_one_step; C07_no_nan_literal, C07_shorter_or_untouched, C07_div_pow_never_folded, C07_only_constant_operands hold for ANY oracles. The proof turns the code's `==`/type check into identity through the repr-sign device (the candidate is an unsigned literal, or its negation).",
+    "Proof relative to premises HL/HE/HEv/HRc (what a re-parsing Num candidate evaluates to) and compositionality of evaluation, all sampled against CPython on every run; Model/Fold.v is a hand transcription tied to the code by leg F (vm_compute with table oracles recorded from the real run). Exceptions identified up to 'raises' in the theorem. Context-dependent length (parenthesisation) is covered by the oracle only.",
+    "Coq proof over an oracle-parametric model of visit_BinOp + vm_compute correspondence (decisions and literals) + eval differential oracle", "DESIGN.md 5.7")
 chk("C12", "C12_ministring_closed_short/_long: for every string, both modes and both quote characters, the text MiniString passes to eval() is scanned by a reference string-literal scanner as exactly one literal (proved by induction over the string); C12_eval_sites_are_the_reviewed_ones and C12_fold_operands_are_constants: the list of eval/import/open/process call sites and the operand guard of the folding eval, re-read from the source on every run, are exactly the reviewed ones. Partial: the quote selection of f_string.Str/Bytes is not modelled in Coq; every eval during minify() is instead monitored through an audit hook and classified with CPython's tokenizer.",
     "Trusted: Coq kernel; Model/MiniString.v transcription (tied by vm_compute correspondence with ministring.py); the reference scanner; translator/evalsites.py; sys.addaudithook monitor. Genuine defect found and fixed (non-finite complex results evaluated the names inf/nan).",
     "Coq proof (induction over strings) + translator-extracted eval-site list + audit-hook monitored correspondence", "DESIGN.md 5.12")
